@@ -245,6 +245,28 @@ fn step(s: &dyn ShapeDyn, d: &Desc, img: &[u8], pop: &PathOp) -> StepResult {
                 res.viol.push((own, format!("content/{}", name), format!("content {:?}, model {:?}", obs.value.0, exp_value)));
             }
         }
+        // ---- C11: the type's own `==` / `partial_cmp` between the new and the old mapped value agree with the model
+        if own == "C11" && pop.path.is_empty() && problems.is_empty() {
+            match catch(|| s.eq_real(&after, img)) {
+                Ok(Ok(Some((eq, ord)))) => {
+                    let model_eq = obs.value.0 == pre_value;
+                    let back = catch(|| s.eq_real(img, &after)).ok().and_then(|r| r.ok()).flatten();
+                    let sym_ok = match (ord, back) {
+                        (Some(o), Some((eq2, Some(o2)))) => o2 == o.reverse() && eq2 == eq,
+                        _ => true,
+                    };
+                    let str_ok = match (&obs.value.0, &pre_value) {
+                        (Value::Str(a), Value::Str(b)) => ord == Some(a.cmp(b)),
+                        _ => true,
+                    };
+                    if eq != model_eq || (ord == Some(std::cmp::Ordering::Equal)) != model_eq || !sym_ok || !str_ok {
+                        res.viol.push(("C11", format!("equality/{}", name), format!("`==` gives {} and partial_cmp {:?} between {:?} and {:?}", eq, ord, obs.value.0, pre_value)));
+                    }
+                }
+                Ok(Ok(None)) => {}
+                other => res.viol.push(("C11", format!("equality_failed/{}", name), format!("comparing two mapped values failed: {:?}", other.map(|r| r.map(|_| ()))))),
+            }
+        }
         // ---- C13 / C18 on refusal: size and validity as before; bytes inside the old extent untouched
         if was_refused {
             if obs.size != tree.extent && !matches!(pop.op, Op::Assign(..)) {
@@ -318,7 +340,7 @@ impl Model for HModel {
                     a.transitions += 1;
                     a.evaluations += 1;
                     a.count(r.outcome, 1);
-                    a.distinct.insert(format!("{}:{}:{}", fam, op_name(&pop.op), r.outcome));
+                    a.distinct.insert(format!("{}:{}:{}", id, op_name(&pop.op), r.outcome));
                     if let Some(c) = r.refused {
                         a.count(&format!("refused[{}]", c), 1);
                     }
